@@ -462,6 +462,7 @@ def execute(sc):
     base_fmt = None
     nlev = sc.get("levels", 0)
     keys = ["base1", "base2"][:nlev]
+    base_fmts = []
     try:
         for key in keys:
             lv = Level()
@@ -470,6 +471,7 @@ def execute(sc):
             b = ArgsFormatBuilder(base_fmt)
             _apply_level(b, lv, sc[key], res, model, log, top=False)
             base_fmt = b.format
+            base_fmts.append(base_fmt)
     except Exception as e:
         res.violate("op_raised", "base_build", "%s: %s" % (type(e).__name__, e))
         return res
@@ -481,6 +483,10 @@ def execute(sc):
     builder = ArgsFormatBuilder(base_fmt)
     probe_names = LONGS + LETTERS
     try:
+        # what the base formats, and a second builder stacked on the same base, answer BEFORE
+        # anything is added on top
+        q_bases = [_queries(f, probe_names) for f in base_fmts]
+        q_sibling = _queries(ArgsFormatBuilder(base_fmt), probe_names) if base_fmt is not None else None
         snaps = []
         accepted, n_acc, had_reject = _apply_level(builder, lv, sc["ops"], res, model, log, top=True,
                                                    snap_at=sc.get("snap_at"), snaps=snaps)
@@ -493,6 +499,20 @@ def execute(sc):
         # builder vs model
         _check_against_model(res, builder, model, "builder", True)
         fmt = builder.format
+        for depth_, (f_, q_) in enumerate(zip(base_fmts, q_bases)):
+            q_now = _queries(f_, probe_names)
+            if q_now != q_:
+                diff = sorted((k for k in q_ if q_[k] != q_now[k]), key=repr)
+                res.violate("base_format_changed", str(diff[0][0]), "base format #%d answers %r differently after a builder was stacked on it: %r -> %r" % (
+                    depth_, diff[0], q_[diff[0]], q_now[diff[0]]))
+                break
+        if q_sibling is not None:
+            res.probe("sibling_builder_on_same_base")
+            q_now = _queries(ArgsFormatBuilder(base_fmt), probe_names)
+            if q_now != q_sibling:
+                diff = sorted((k for k in q_sibling if q_sibling[k] != q_now[k]), key=repr)
+                res.violate("base_format_changed", "sibling:" + str(diff[0][0]), "a second builder on the same base answers %r differently after the first was used: %r -> %r" % (
+                    diff[0], q_sibling[diff[0]], q_now[diff[0]]))
         _check_against_model(res, fmt, model, "format", True)
         qb, qf = _queries(builder, probe_names), _queries(fmt, probe_names)
         if qb != qf:
@@ -545,6 +565,114 @@ def execute(sc):
                     cc.add_argument(op[1], op[2])
             return cc.build_args_format(base_fmt)
 
+        # one long-lived config object, every plain operation of the history (accepted or not):
+        # a rejected declaration leaves the config as it was
+        cc = CommandConfig("cmdname")
+
+        def listing():
+            os_ = cc.options.values() if isinstance(cc.options, dict) else cc.options
+            as_ = cc.arguments.values() if isinstance(cc.arguments, dict) else cc.arguments
+            return [(o.long_name, o.short_name) for o in os_], [a_.name for a_ in as_]
+
+        intact = True
+        for op in sc["ops"]:
+            if op[0] not in ("opt", "arg") or _degenerate(op):
+                continue
+            before = listing()
+            try:
+                if op[0] == "opt":
+                    cc.add_option(op[1], op[2], op[3])
+                else:
+                    cc.add_argument(op[1], op[2])
+                ok = True
+            except Exception:
+                ok = False
+            after = listing()
+            if not ok:
+                res.probe("config_level_rejection")
+                if after != before:
+                    res.violate("command_config", "rejected_addition_changed_config", "the rejected %r changed the config: options/arguments %r -> %r" % (op, before, after))
+                    intact = False
+                    break
+            elif op[0] == "opt" and after != (before[0] + [(op[1], op[2])], before[1]):
+                res.violate("command_config", "accepted_addition", "after add_option%r the config lists %r (before: %r)" % (tuple(op[1:]), after, before))
+                intact = False
+                break
+            elif op[0] == "arg" and after != (before[0], before[1] + [op[1]]):
+                res.violate("command_config", "accepted_addition", "after add_argument%r the config lists %r (before: %r)" % (tuple(op[1:]), after, before))
+                intact = False
+                break
+        if intact:
+            try:
+                f4 = cc.build_args_format(None)
+                lo = [(o.long_name, o.short_name) for o in f4.get_options(False).values()]
+                la_ = [a_.name for a_ in f4.get_arguments(False).values()]
+                if (sorted(lo, key=repr), la_) != (sorted(listing()[0], key=repr), listing()[1]):
+                    res.violate("command_config", "format_vs_config", "build_args_format lists %r / %r, the config lists %r" % (lo, la_, listing()))
+            except Exception as e:
+                res.violate("command_config", "rejects_valid", "build_args_format() of a config holding only accepted declarations raised %s: %s" % (type(e).__name__, e))
+        # a command tree of its own (no application): each sub-command stacks its format on its parent's
+        if levels[:-1] and not any(l.copts for l in levels):
+            from clikit.api.command import Command
+            cfgs = []
+            for i_, l in enumerate(levels):
+                c_ = CommandConfig("lvl%d" % i_)
+                for o in l.opts:
+                    c_.add_option(o[0], o[1], o[2])
+                for a in l.args:
+                    c_.add_argument(a[0], a[1])
+                if cfgs:
+                    cfgs[-1].add_sub_command_config(c_)
+                cfgs.append(c_)
+            res.probe("detached_command_tree")
+            try:
+                cmd = Command(cfgs[0])
+                for i_ in range(1, len(cfgs)):
+                    cmd = cmd.get_sub_command("lvl%d" % i_)
+                lf = cmd.args_format
+                got_names = [n.string for n in lf.get_command_names()]
+                got_args = [a.name for a in lf.get_arguments().values()]
+                got_opts = sorted(o.long_name for o in lf.get_options().values())
+                want_opts = sorted(o[0] for l in levels for o in l.opts)
+                if got_names != ["lvl%d" % i_ for i_ in range(len(cfgs))] or got_args != [a[0] for a in model.all_args()] or got_opts != want_opts:
+                    res.violate("command_tree", "stacking", "sub-command of a command tree without application: names %r arguments %r options %r; levels imply %r / %r / %r" % (
+                        got_names, got_args, got_opts, ["lvl%d" % i_ for i_ in range(len(cfgs))], [a[0] for a in model.all_args()], want_opts))
+            except Exception as e:
+                res.violate("command_tree", "rejects_valid", "command tree from accepted elements raised %s: %s" % (type(e).__name__, e))
+            # ... and an element the rules reject on top of the parent levels is rejected there too
+            for op in sc["ops"]:
+                if op[0] in ("opt", "arg") and not _degenerate(op):
+                    ok = model.can_add_option(op[1], op[2]) if op[0] == "opt" else model.can_add_arg(op[1], op[2])
+                    own = Model([levels[-1]])
+                    ok_alone = own.can_add_option(op[1], op[2]) if op[0] == "opt" else own.can_add_arg(op[1], op[2])
+                    if not ok and ok_alone:
+                        try:
+                            _mk(op)
+                        except Exception:
+                            continue
+                        try:
+                            tops = []
+                            for i_, l in enumerate(levels):
+                                c_ = CommandConfig("lvl%d" % i_)
+                                for o in l.opts:
+                                    c_.add_option(o[0], o[1], o[2])
+                                for a in l.args:
+                                    c_.add_argument(a[0], a[1])
+                                if tops:
+                                    tops[-1].add_sub_command_config(c_)
+                                tops.append(c_)
+                            if op[0] == "opt":
+                                tops[-1].add_option(op[1], op[2], op[3])
+                            else:
+                                tops[-1].add_argument(op[1], op[2])
+                            cmd = Command(tops[0])
+                            for i_ in range(1, len(tops)):
+                                cmd = cmd.get_sub_command("lvl%d" % i_)
+                            cmd.args_format
+                            res.violate("command_tree", "accepts_invalid", "a sub-command of a command tree without application accepted %r although it collides with its parents (levels %r)" % (op, [l.snap() for l in model.levels]))
+                        except Exception:
+                            res.probe("command_tree_rejects")
+                        break
         # only when no command option of the top level could collide with what the config adds
         if not lv.copts:
             try:
